@@ -930,3 +930,28 @@ func cmdsKey(pk *pkg, cs []cmd) string {
 func setDataFragmentPayload(p payload, b []byte) {
 	p.(*fr.DataFragmentPayload).Payload = b
 }
+
+// dataFragmentNotLast: some DataFragment of a fragmentation stream is followed by another command
+func dataFragmentNotLast(pk *pkg, cs []cmd) bool {
+	if pk.name != "fragmentation" {
+		return false
+	}
+	for i, c := range cs {
+		if _, ok := c.p.(*fr.DataFragmentPayload); ok && i != len(cs)-1 {
+			return true
+		}
+	}
+	return false
+}
+
+func mkDataFragment(fi uint8, n uint16, payload []byte) payload {
+	p := &fr.DataFragmentPayload{Payload: payload}
+	p.IndexAndN.FragIndex, p.IndexAndN.N = fi, n
+	return p
+}
+
+func mkFragStatusReq(fi uint8, participants bool) payload {
+	p := &fr.FragSessionStatusReqPayload{}
+	p.FragStatusReqParam.FragIndex, p.FragStatusReqParam.Participants = fi, participants
+	return p
+}
